@@ -80,9 +80,23 @@ func HarnessC16Alias(api int) {
 			}
 			if d.PES != nil {
 				snaps = append(snaps, snap{d.PES.Data, snapshotBytes(d.PES.Data)})
+				if oh := d.PES.Header.OptionalHeader; oh != nil {
+					snaps = append(snaps, snap{oh.PrivateData, snapshotBytes(oh.PrivateData)})
+					snaps = append(snaps, snap{oh.Extension2Data, snapshotBytes(oh.Extension2Data)})
+				}
 			}
 			if d.FirstPacket != nil {
 				snaps = append(snaps, snap{d.FirstPacket.Payload, snapshotBytes(d.FirstPacket.Payload)})
+				if af := d.FirstPacket.AdaptationField; af != nil {
+					snaps = append(snaps, snap{af.TransportPrivateData, snapshotBytes(af.TransportPrivateData)})
+				}
+			}
+			if d.PMT != nil {
+				for _, es := range d.PMT.ElementaryStreams {
+					for _, ds := range es.ElementaryStreamDescriptors {
+						snaps = append(snaps, snap{ds.UserDefined, snapshotBytes(ds.UserDefined)})
+					}
+				}
 			}
 		}
 		check()
@@ -91,4 +105,48 @@ func HarnessC16Alias(api int) {
 	}
 	check()
 	vreach("C16.alias.end")
+}
+
+// HarnessC20RewindLong: two PES PIDs, one of which has consumed 16 or 17 packets when the rewind happens, so that the
+// continuity counters of packets left over from before the rewind would line up with the restarted stream
+func HarnessC20RewindLong(auto int) {
+	s := &sStream{}
+	a1 := mkPESPattern(0x100, 20, true, 1)
+	b1 := mkPESPattern(0x101, 16*184-14, true, 2) // exactly 16 packets
+	a2 := mkPESPattern(0x100, 30, true, 3)
+	b2 := mkPESPattern(0x101, 10, true, 4)
+	a3 := mkPESPattern(0x100, 5, true, 5)
+	pb1 := packetize(b1, 0, 184, false)
+	s.add(a1, packetize(a1, 0, 184, false))
+	s.add(b1, pb1)
+	s.add(a2, packetize(a2, 1, 184, false))
+	s.add(b2, packetize(b2, uint8(len(pb1)), 184, false))
+	s.add(a3, packetize(a3, 2, 184, false))
+	data := s.bytes()
+	ref, err := drainReader(newVSeekReader(data), 188)
+	vassert("C20.long.ref", err == nil && len(ref) == 5)
+	r := newVSeekReader(data)
+	var dmx *Demuxer
+	if auto == 1 {
+		dmx = NewDemuxer(vCtx{}, r)
+	} else {
+		dmx = NewDemuxer(vCtx{}, r, DemuxerOptPacketSize(188))
+	}
+	k := vrange(0, 5)
+	for i := 0; i < k; i++ {
+		dmx.NextData()
+	}
+	n, err := dmx.Rewind()
+	vassert("C20.long.rewind", n == 0 && err == nil)
+	var got []*DemuxerData
+	for j := 0; j < 10; j++ {
+		d, err := dmx.NextData()
+		if err == ErrNoMorePackets {
+			break
+		}
+		vassert("C20.long.err", err == nil)
+		got = append(got, d)
+	}
+	vassert("C20.long.same", sameSeq(ref, got))
+	vreach("C20.long.end")
 }
